@@ -506,6 +506,20 @@ impl RepositoryState {
         Ok(())
     }
 
+    /// Parses a state record (verification access).
+    #[cfg(routinator_verif)]
+    pub fn verif_parse(reader: &mut impl io::Read) -> Result<Self, io::Error> {
+        Self::parse(reader)
+    }
+
+    /// Composes a state record (verification access).
+    #[cfg(routinator_verif)]
+    pub fn verif_compose(
+        &self, writer: &mut impl io::Write
+    ) -> Result<(), io::Error> {
+        self.compose(writer)
+    }
+
     /// Returns the last update time as proper timestamp.
     ///
     /// Returns `None` if the time cannot be converted into a timestamp for
